@@ -640,38 +640,37 @@ impl Mass for Locomotive {
         );
 
         let derived_mass = self.derived_mass().with_context(|| format_dbg!())?;
-        self.mass = match new_mass {
-            // Set using provided `new_mass`, setting constituent mass fields to `None` to match if inconsistent
-            Some(new_mass) => {
-                if let Some(dm) = derived_mass {
-                    if dm != new_mass {
-                        #[cfg(feature = "logging")]
-                        log::warn!(
-                            "Derived mass does not match provided mass, setting `{}` consituent mass fields to `None`",
-                            stringify!(Locomotive));
-                        self.expunge_mass_fields();
-                    }
-                }
-                Some(new_mass)
-            }
+        let mass = match new_mass {
+            Some(new_mass) => new_mass,
             // Set using `derived_mass()`, failing if it returns `None`
-            None => Some(derived_mass.with_context(|| {
+            None => derived_mass.with_context(|| {
                 format!(
                     "Not all mass fields in `{}` are set and no mass was provided.",
                     stringify!(Locomotive)
                 )
-            })?),
+            })?,
         };
+        // `force_max` follows the new mass.  Work it out before anything is modified so
+        // that a rejected update leaves the locomotive as it was
+        let force_max = self
+            .mu
+            .with_context(|| format!("{}\nExpected `mu` to be set", format_dbg!()))?
+            * mass
+            * uc::ACC_GRAV;
+        // Set using provided `new_mass`, setting constituent mass fields to `None` to match if inconsistent
+        if let (Some(new_mass), Some(dm)) = (new_mass, derived_mass) {
+            if dm != new_mass {
+                #[cfg(feature = "logging")]
+                log::warn!(
+                    "Derived mass does not match provided mass, setting `{}` consituent mass fields to `None`",
+                    stringify!(Locomotive));
+                self.expunge_mass_fields();
+            }
+        }
+        self.mass = Some(mass);
         #[cfg(feature = "logging")]
         log::info!("Updating `force_max` to correspond to new mass.");
-        self.force_max = self
-            .mu()
-            .with_context(|| format_dbg!())?
-            .with_context(|| format!("{}\nExpected `mu` to be set", format_dbg!()))?
-            * self
-                .mass()?
-                .with_context(|| format!("{}\nExpected `mass` to be set", format_dbg!()))?
-            * uc::ACC_GRAV;
+        self.force_max = force_max;
         Ok(())
     }
 
@@ -706,19 +705,17 @@ impl Locomotive {
         force_max: si::Force,
         side_effect: ForceMaxSideEffect,
     ) -> anyhow::Result<()> {
-        self.force_max = force_max;
         match side_effect {
-            ForceMaxSideEffect::Mass => self
-                .set_mass(
-                    Some(
-                        force_max
-                            / (self.mu().with_context(|| format_dbg!())?.with_context(|| {
-                                format_dbg!("Expected traction coefficient to be set.")
-                            })? * uc::ACC_GRAV),
-                    ),
+            ForceMaxSideEffect::Mass => {
+                let mu = self
+                    .mu
+                    .with_context(|| format_dbg!("Expected traction coefficient to be set."))?;
+                self.set_mass(
+                    Some(force_max / (mu * uc::ACC_GRAV)),
                     MassSideEffect::None,
                 )
-                .with_context(|| format_dbg!())?,
+                .with_context(|| format_dbg!())?
+            }
             ForceMaxSideEffect::UpdateMu => {
                 self.mu = self.mass.map(|mass| force_max / (mass * uc::ACC_GRAV))
             }
@@ -733,6 +730,8 @@ impl Locomotive {
                 self.mass = None;
             }
         }
+        // only once the side effect has been accepted
+        self.force_max = force_max;
         Ok(())
     }
 
@@ -1153,21 +1152,29 @@ impl Locomotive {
     }
 
     pub fn set_mu(&mut self, mu: si::Ratio, mu_side_effect: MuSideEffect) -> anyhow::Result<()> {
-        self.mu = Some(mu);
         match mu_side_effect {
-            MuSideEffect::Mass => self.set_mass(
-                Some(self.force_max / (mu * uc::ACC_GRAV)),
-                MassSideEffect::None,
-            ),
+            MuSideEffect::Mass => {
+                // `set_mass` derives `force_max` from `self.mu`
+                let mu_prev = self.mu.replace(mu);
+                let res = self.set_mass(
+                    Some(self.force_max / (mu * uc::ACC_GRAV)),
+                    MassSideEffect::None,
+                );
+                if res.is_err() {
+                    self.mu = mu_prev;
+                }
+                res
+            }
             MuSideEffect::ForceMax => {
-                self.force_max = mu
-                    * uc::ACC_GRAV
-                    * self
-                        .mass()?
-                        .with_context(|| format_dbg!("Expected `mass` to be Some."))?;
+                let mass = self
+                    .mass()?
+                    .with_context(|| format_dbg!("Expected `mass` to be Some."))?;
+                self.mu = Some(mu);
+                self.force_max = mu * uc::ACC_GRAV * mass;
                 Ok(())
             }
             MuSideEffect::SetMassToNone => {
+                self.mu = Some(mu);
                 self.mass = None;
                 Ok(())
             }
